@@ -2,6 +2,7 @@
 import os
 
 import common as C
+import optsdom
 import validout
 
 CORPUS = os.path.join(C.VERIF, "corpus", "C12")
@@ -77,6 +78,7 @@ def run(ctx):
     validout.run(ctx, "flatten")
     summ = oracle(ctx, ctx.scale(9000, 40000))
     ctx.add_summary(summ, "FlattenBatches oracle")
+    optsdom.run(ctx, "C12")
     if summ and "input_file_no_longer_valid_after_flatten" in summ:
         # outside the statement of C12 (see docs/C12.md, "Observation")
         ctx.cov["observation_input_file_no_longer_valid_after_flatten"] = summ["input_file_no_longer_valid_after_flatten"]
@@ -85,6 +87,8 @@ def run(ctx):
 
 
 def replay(path):
+    if optsdom.is_case(path):
+        return optsdom.replay(path)
     ok, out = C.build_harness()
     if not ok:
         print(out[-2000:])
